@@ -44,14 +44,14 @@ type c18Ref struct {
 func (r c18Ref) String() string { return fmt.Sprintf("%c%d", r.kind, r.idx) }
 
 const (
-	c18Direct = iota // f: tX.out
-	c18Nested        // f: a: b: tX.out
-	c18Sum           // f: X + Y (+ Z)
-	c18Interp        // f: "\(tX.out)"
-	c18ListComp      // f: [for v in [X, Y] {v}]
-	c18Cond          // if tX.out > 0 {f: Y}      refs[0] = guard (no data), refs[1] = data
-	c18Group         // f: [for k, v in gJ {v.out}]
-	c18After         // $after: [tX, tY]          no data
+	c18Direct   = iota // f: tX.out
+	c18Nested          // f: a: b: tX.out
+	c18Sum             // f: X + Y (+ Z)
+	c18Interp          // f: "\(tX.out)"
+	c18ListComp        // f: [for v in [X, Y] {v}]
+	c18Cond            // if tX.out > 0 {f: Y}      refs[0] = guard (no data), refs[1] = data
+	c18Group           // f: [for k, v in gJ {v.out}]
+	c18After           // $after: [tX, tY]          no data
 	c18nShapes
 )
 
@@ -897,7 +897,17 @@ func c18Execute(w *c18WF, plan *c18Plan) (ru *c18Run, res *c18Result) {
 		res.hasValue = true
 	}()
 	ru.mu.Lock()
-	res.events = append([]c18Event(nil), ru.events...)
+	// the history ends with the return of Run: a goroutine the controller had already
+	// spawned may get scheduled only later; what it logs then is not part of the history
+	for i, e := range ru.events {
+		if e.kind == 'R' {
+			res.events = append([]c18Event(nil), ru.events[:i+1]...)
+			break
+		}
+	}
+	if res.events == nil {
+		res.events = append([]c18Event(nil), ru.events...)
+	}
 	res.starts = map[int]int{}
 	for k, v := range ru.starts {
 		res.starts[k] = v
@@ -1180,7 +1190,7 @@ func c18Judge(c *Cfg, w *c18WF, plan *c18Plan, ru *c18Run, res *c18Result, prima
 				}
 			}
 			for id := range w.tasks {
-				if res.value.LookupPath(cue.ParsePath(w.taskPath(id)+".out")).IsConcrete() {
+				if res.value.LookupPath(cue.ParsePath(w.taskPath(id) + ".out")).IsConcrete() {
 					inst = append(inst, id)
 				}
 			}
@@ -1203,7 +1213,9 @@ func c18Judge(c *Cfg, w *c18WF, plan *c18Plan, ru *c18Run, res *c18Result, prima
 				}
 			}
 			c.Op("O", "deps "+enc, c18Edges(found))
-			c.Op("I", "depsx "+enc, c18Edges(all))
+			if !c.Focus {
+				c.Op("I", "depsx "+enc, c18Edges(all))
+			}
 		}
 	}
 	if !c.Focus && !plan.cmdCfg {
@@ -1211,7 +1223,7 @@ func c18Judge(c *Cfg, w *c18WF, plan *c18Plan, ru *c18Run, res *c18Result, prima
 		var inst []int
 		if res.hasValue {
 			for _, t := range res.final {
-				if res.value.LookupPath(cue.ParsePath(t.Path().String()+".out")).IsConcrete() {
+				if res.value.LookupPath(cue.ParsePath(t.Path().String() + ".out")).IsConcrete() {
 					inst = append(inst, t.Index())
 				}
 			}
